@@ -509,6 +509,14 @@ def _table_cached(pm, f):
     return r[1]
 
 
+def _is_initialiser(key):
+    t = key.split(': ', 1)[1] if ': ' in key else key
+    if ' = ' not in t:
+        return False
+    rhs = t.split(' = ', 1)[1].strip()
+    return rhs in ('[]', '{}', 'set()', 'dict()', 'list()', 'None', "''", '()', 'OrderedDict()')
+
+
 WHAT = {'lost': 'no longer happens on a path that used to have it',
         'extra': 'now also happens on a path that used not to have it',
         'both': 'happens under another condition',
@@ -539,6 +547,9 @@ def run(pm, ctx, rule, funcs, kinds, title, suffix, min_funcs=1, extra_is_violat
             n_eff += 1
             verdict, wit = compare(r['occ'], c['occ'], ambiguous=_ambiguous(f),
                                    ref_keys=set(ref[q]), cur_keys=set(cur), excl=_excl(pm))
+            if r['kind'] == 'assign' and verdict in ('lost', 'both') and _is_initialiser(key):
+                continue        # where an accumulator / result variable is first set to "empty"
+                #                 moves with every restructuring; its uses are what is compared
             if verdict in ('lost', 'both', 'changed') or \
                     (verdict == 'extra' and r['kind'] in extra_is_violation):
                 problems.append((verdict, key, wit))
